@@ -216,8 +216,8 @@ def match_known(known, prop, signature):
 # report
 # ---------------------------------------------------------------------------
 
-REPLAY_DIR = os.path.join(env.VERIF_ROOT, "out", "replays")
-EVIDENCE_DIR = os.path.join(env.VERIF_ROOT, "evidence")
+REPLAY_DIR = os.environ.get("VERIF_REPLAY_DIR") or os.path.join(env.VERIF_ROOT, "out", "replays")
+EVIDENCE_DIR = os.environ.get("VERIF_EVIDENCE_DIR") or os.path.join(env.VERIF_ROOT, "evidence")
 
 
 def write_replay(prop, replay):
